@@ -1127,11 +1127,7 @@ fn normalize_specifier(specifier: VersionSpecifier) -> VersionSpecifier {
     // Note that we cannot strip trailing `0`s for star equality, as `==3.0.*` is different from `==3.*`.
     // Nor can we strip them for `~=`, as `~=3.5.0` (`>=3.5.0,==3.5.*`) is different from `~=3.5`.
     if !operator.is_star() && operator != Operator::TildeEqual {
-        if let Some(end) = release.iter().rposition(|segment| *segment != 0) {
-            if end > 0 {
-                release = &release[..=end];
-            }
-        }
+        release = strip_trailing_zeros(release);
     }
 
     VersionSpecifier::from_version(operator, Version::new(release)).unwrap()
